@@ -3,7 +3,8 @@
 use crate::term::{Node, Sort, Terms, T};
 use std::collections::{HashMap, HashSet};
 use std::io::{BufRead, BufReader, Write};
-use std::process::{Child, ChildStdin, ChildStdout, Command, Stdio};
+use std::process::{Child, ChildStdin, Command, Stdio};
+use std::sync::mpsc::{channel, Receiver};
 use std::time::{Duration, Instant};
 
 #[derive(Debug, Clone, Copy, PartialEq, Eq)]
@@ -22,7 +23,7 @@ enum Def {
 pub struct Solver {
 	child: Child,
 	sin: ChildStdin,
-	sout: BufReader<ChildStdout>,
+	sout: Receiver<String>,
 	levels: Vec<Vec<Def>>,
 	defined: HashSet<T>,
 	declared: HashSet<String>,
@@ -39,6 +40,8 @@ pub struct Solver {
 	pub timeout_ms: u64,
 	pub cmd: String,
 	pub unknowns: u64,
+	pub hangs: u64,
+	rebuild_lines: Vec<String>,
 	pub prefer_standalone: bool,
 	pub standalone_runs: u64,
 	pub cvc5_decided: u64,
@@ -46,17 +49,37 @@ pub struct Solver {
 	pub full_timeout_ms: u64,
 }
 
+fn spawn_solver(cmd: &str) -> (Child, ChildStdin, Receiver<String>) {
+	let mut parts = cmd.split_whitespace();
+	let prog = parts.next().unwrap();
+	let mut c = Command::new(prog);
+	for a in parts {
+		c.arg(a);
+	}
+	let mut child = c.stdin(Stdio::piped()).stdout(Stdio::piped()).stderr(Stdio::null()).spawn().expect("cannot start solver");
+	let sin = child.stdin.take().unwrap();
+	let out = child.stdout.take().unwrap();
+	let (tx, rx) = channel();
+	std::thread::spawn(move || {
+		let mut r = BufReader::new(out);
+		loop {
+			let mut l = String::new();
+			match r.read_line(&mut l) {
+				Ok(0) | Err(_) => break,
+				Ok(_) => {
+					if tx.send(l).is_err() {
+						break;
+					}
+				}
+			}
+		}
+	});
+	(child, sin, rx)
+}
+
 impl Solver {
 	pub fn new(cmd: &str, timeout_ms: u64) -> Solver {
-		let mut parts = cmd.split_whitespace();
-		let prog = parts.next().unwrap();
-		let mut c = Command::new(prog);
-		for a in parts {
-			c.arg(a);
-		}
-		let mut child = c.stdin(Stdio::piped()).stdout(Stdio::piped()).stderr(Stdio::null()).spawn().expect("cannot start solver");
-		let sin = child.stdin.take().unwrap();
-		let sout = BufReader::new(child.stdout.take().unwrap());
+		let (child, sin, sout) = spawn_solver(cmd);
 		let mut s = Solver {
 			child,
 			sin,
@@ -76,6 +99,8 @@ impl Solver {
 			timeout_ms,
 			cmd: cmd.to_string(),
 			unknowns: 0,
+			hangs: 0,
+			rebuild_lines: Vec::new(),
 			prefer_standalone: false,
 			standalone_runs: 0,
 			cvc5_decided: 0,
@@ -96,26 +121,61 @@ impl Solver {
 				let _ = writeln!(fh, "{}", line);
 			}
 		}
+		// keep what is needed to rebuild the assertion stack after a restart
+		if line.starts_with("(push") {
+			self.rebuild_lines.push(line.to_string());
+		} else if line.starts_with("(pop") {
+			while let Some(l) = self.rebuild_lines.pop() {
+				if l.starts_with("(push") {
+					break;
+				}
+			}
+		} else if line.starts_with("(declare") || line.starts_with("(define") || line.starts_with("(assert") {
+			self.rebuild_lines.push(line.to_string());
+		}
 		if writeln!(self.sin, "{}", line).is_err() {
 			self.error = Some("solver pipe closed".into());
 		}
 	}
 	fn read_line(&mut self) -> String {
-		let mut l = String::new();
 		let _ = self.sin.flush();
-		match self.sout.read_line(&mut l) {
-			Ok(0) => {
+		let wait = Duration::from_millis(self.timeout_ms.min(2500) + 3000);
+		let l = match self.sout.recv_timeout(wait) {
+			Ok(l) => l,
+			Err(std::sync::mpsc::RecvTimeoutError::Timeout) => {
+				// the solver ignores its own time limit (non-linear core): restart it and rebuild the
+				// assertion stack; the query is then decided by the standalone fallback
+				self.hangs += 1;
+				self.restart();
+				return "unknown".to_string();
+			}
+			Err(_) => {
 				self.error = Some("solver closed its output".into());
+				String::new()
 			}
-			Ok(_) => {}
-			Err(e) => {
-				self.error = Some(format!("solver read error {}", e));
-			}
-		}
+		};
 		if l.starts_with("(error") {
 			self.error = Some(format!("solver reported {}", l.trim()));
 		}
 		l
+	}
+	/// kill the solver process, start a fresh one and re-send declarations / definitions / assertions of
+	/// every open level
+	fn restart(&mut self) {
+		let _ = self.child.kill();
+		let _ = self.child.wait();
+		let (child, sin, sout) = spawn_solver(&self.cmd);
+		self.child = child;
+		self.sin = sin;
+		self.sout = sout;
+		self.prefer_standalone = true;
+		self.send("(set-option :print-success false)");
+		let t = self.timeout_ms.min(2500);
+		self.send(&format!("(set-option :timeout {})", t));
+		let script = std::mem::take(&mut self.rebuild_lines);
+		for l in script {
+			self.send(&l);
+		}
 	}
 	pub fn level(&self) -> usize {
 		self.levels.len() - 1
